@@ -23,6 +23,7 @@ DECIDED = [
     "R-C15-DISCIPLINE (round 5): RabbitMQ on_new_message reaches queue.put without a suspension point (each delivery callback is its own task: a suspended earlier delivery is overtaken)",
     "R-C15-DISCIPLINE (round 6): a cancelled RabbitMQ wait cancels its getter task (a leaked getter swallows the next delivery) and re-raises; an error while reading a claimed Redis message propagates",
     "R-C15-AWAITED: in the files this property is anchored in, no bare statement calls a coroutine function (the operation would never run)",
+    "R-C15-DISCIPLINE (Redis sweep rules): a claimed name always proceeds to the read of its data (never abandoned in `processing` while later messages are delivered)",
 ]
 NOT_DECIDED = ["order across histories with concurrent producers/consumers", "RabbitMQ (server-side ordering)", "fairness between priorities (randomised by design)"]
 ASSUMPTIONS = ["Redis LRANGE returns elements left to right, LPUSH/RPUSH add at the left/right end, LREM with negative count scans from the tail", "asyncio.Queue is FIFO for put_nowait/get_nowait"]
@@ -32,6 +33,9 @@ def run(ctx: Ctx) -> None:
     from .shared import every_operation_awaited
 
     every_operation_awaited(ctx, "R-C15-AWAITED")  # in the files this property is anchored in, no asynchronous operation is created and dropped
+    from .brokers import redis_claim_flow
+
+    redis_claim_flow(ctx, "R-C15-DISCIPLINE")  # the Redis take, guard by guard (no name -> nothing claimed; claimed -> removed from the right structure, marked, data read; complete data only)
     discipline(ctx)
     inmem(ctx)
     from .C06 import first_run
